@@ -40,6 +40,7 @@ func atomNames(defs ...atomDef) []string {
 
 // eqAtom: v is  X == Y  or  X != Y  with X, Y satisfying the predicates (either order).
 func eqAtom(name string, x, y vpred) atomDef {
+	x, y = viaCell(x), viaCell(y)
 	return atomDef{name, func(v ssa.Value) (bool, bool) {
 		bo, ok := v.(*ssa.BinOp)
 		if !ok || (bo.Op != token.EQL && bo.Op != token.NEQ) {
@@ -54,6 +55,7 @@ func eqAtom(name string, x, y vpred) atomDef {
 
 // ltAtom: v is X < Y (or an equivalent form); name denotes "X < Y".
 func ltAtom(name string, x, y vpred) atomDef {
+	x, y = viaCell(x), viaCell(y)
 	return atomDef{name, func(v ssa.Value) (bool, bool) {
 		bo, ok := v.(*ssa.BinOp)
 		if !ok {
@@ -83,7 +85,20 @@ func ltAtom(name string, x, y vpred) atomDef {
 
 // boolAtom: v itself (a bool-typed value) satisfies the predicate.
 func boolAtom(name string, x vpred) atomDef {
+	x = viaCell(x)
 	return atomDef{name, func(v ssa.Value) (bool, bool) { return x(v), false }}
+}
+
+// viaCell: the predicate holds for v, or v is a read of a local variable cell that holds exactly one value there (a named
+// result or address-taken local with a single reaching store) and the predicate holds for that value.
+func viaCell(p vpred) vpred {
+	return func(v ssa.Value) bool {
+		if p(v) {
+			return true
+		}
+		cv := cellValue(v)
+		return cv != stripConv(v) && p(cv)
+	}
 }
 
 func anyV(ssa.Value) bool { return true }
@@ -475,6 +490,7 @@ func reachingStores(cell *ssa.Alloc, at ssa.Instruction) (out []*ssa.Store, zero
 // that length with a constant that is equivalent to emptiness (== 0, <= 0, < 1, 0 >= len, 1 > len) or to its
 // negation (!= 0, > 0, >= 1, 0 < len, 1 <= len) is recognised (lengths are non-negative).
 func lenZeroAtom(name string, lenPred vpred) atomDef {
+	lenPred = viaCell(lenPred)
 	return atomDef{name, func(v ssa.Value) (bool, bool) {
 		bo, ok := v.(*ssa.BinOp)
 		if !ok {
